@@ -1,14 +1,23 @@
 use super::scratch::DecoderScratch;
+use crate::common::MAX_BLOCK_SIZE;
 use crate::decoding::errors::ExecuteSequencesError;
 
 /// Take the provided decoder and execute the sequences stored within
 pub fn execute_sequences(scratch: &mut DecoderScratch) -> Result<(), ExecuteSequencesError> {
     let mut literals_copy_counter = 0;
     let old_buffer_size = scratch.buffer.len();
-    let mut seq_sum = 0;
+    let mut seq_sum: u32 = 0;
 
     for idx in 0..scratch.sequences.len() {
         let seq = scratch.sequences[idx];
+
+        // A block must not regenerate more than the maximum block size.
+        // seq_sum is at most MAX_BLOCK_SIZE here and ll/ml are below 2^18, so this cannot overflow.
+        if seq_sum + seq.ll + seq.ml > MAX_BLOCK_SIZE {
+            return Err(ExecuteSequencesError::BlockTooLarge {
+                size: seq_sum + seq.ll + seq.ml,
+            });
+        }
 
         if seq.ll > 0 {
             let high = literals_copy_counter + seq.ll as usize;
@@ -39,6 +48,11 @@ pub fn execute_sequences(scratch: &mut DecoderScratch) -> Result<(), ExecuteSequ
     }
     if literals_copy_counter < scratch.literals_buffer.len() {
         let rest_literals = &scratch.literals_buffer[literals_copy_counter..];
+        if seq_sum as usize + rest_literals.len() > MAX_BLOCK_SIZE as usize {
+            return Err(ExecuteSequencesError::BlockTooLarge {
+                size: seq_sum.saturating_add(rest_literals.len() as u32),
+            });
+        }
         scratch.buffer.push(rest_literals);
         seq_sum += rest_literals.len() as u32;
     }
